@@ -395,6 +395,7 @@ SubVals(s) ==   \* substituted values as [label, little-endian bytes]
       ELSE << << "0xFFFF", <<255, 255, 0, 0>> >>, << "0x10000", <<0, 0, 1, 0>> >>, << "0x1000000", <<0, 0, 0, 1>> >>,
               << "0x7FFFFFFF", <<255, 255, 255, 127>> >>, << "0x80000000", <<0, 0, 0, 128>> >>,
               << "0xFFFFFFF0", <<240, 255, 255, 255>> >>, << "0xFFFFFFFF", <<255, 255, 255, 255>> >> >>)
+WrapCount(e, r) == CHOOSE v \in 0..65535 : (v * e) % 65536 = r
 Patch(b, off, bytes) == [i \in 1..Len(b) |-> IF i >= off /\ i < off + Len(bytes) THEN bytes[i - off + 1] ELSE b[i]]
 
 DecVecV(t, dotu, var, kind, arg, b) ==
@@ -443,6 +444,15 @@ DecVecsOf(t, dotu, var) ==
         \o (IF t = "stat" THEN <<>> ELSE
             [i \in 1..Len(sv) |-> DecVec(t, dotu, "subpad", ":" \o st[s].name \o "=" \o sv[i][1],
                                          Patch(Patch(c \o ZeroN(300), st[s].off, sv[i][2]), 1, LE(Num(n + 300, 4))))])])
+  \* wrap:<site>+r: a count of fixed-size elements v with (v * elemsize) mod 2^16 = r followed by r bytes, so that a
+  \* length test done in 16-bit arithmetic passes although v elements do not fit (qids: 13 bytes each)
+  \o FlattenSeq([s \in 1..Len(st) |->
+        IF st[s].name = "nwqid"
+          THEN [r \in 1..14 |->
+                  DecVec(t, dotu, "wrap", ":" \o st[s].name \o "+" \o ToString(r),
+                         Patch(Patch(SubSeq(c, 1, st[s].off + 1) \o ZeroN(r), st[s].off, LE(Num(WrapCount(13, r), 2))),
+                               1, LE(Num(st[s].off + 1 + r, 4))))]
+          ELSE <<>>])
   \* type byte substitutions (messages)
   \o (IF t = "stat" THEN <<>>
       ELSE [i \in 1..Len(TypeVals) |-> DecVec(t, dotu, "type", "=" \o ToString(TypeVals[i]), Patch(c, 5, << TypeVals[i] >>))])
